@@ -431,6 +431,8 @@ def kind_cells(f, disp, kinds, max_paths=4000):
             outs = []
             for s, rv in res:
                 outs.append({"conds": list(s.conds), "ret": it.resolve(s, rv), "events": list(s.events), "flags": set(s.flags)})
+            if outs:
+                outs[0]["call_sites"] = {k_: set(v_) for k_, v_ in it.call_sites.items()}
             table[combo] = outs
         out[kind] = table
     return out
